@@ -22,6 +22,7 @@ type track struct {
 	lastFull       int64  // size of the last full bet/raise of the round
 	lastAny        int64  // size of the last increase of the wager to match of any kind
 	lastAct        int64  // size of the last increase made by a bet, raise or all-in action (a completed call excluded)
+	lastFullAct    int64  // size of the last full bet/raise made by a betting action: the poker rule (an incomplete all-in and a completed call do not change it)
 	blindsChecked  bool
 	anteSeen       bool
 	closedSeen     bool
@@ -241,9 +242,9 @@ func (r *run) updateTrack(d *delivery, cl opClass, accepted bool) {
 		t.round = post.Status.Round
 		t.hadTurn = make([]bool, r.n)
 		t.turnsSinceAggr = 0
-		t.lastFull, t.lastAny, t.lastAct = 0, 0, 0
+		t.lastFull, t.lastAny, t.lastAct, t.lastFullAct = 0, 0, 0, 0
 		if t.round == "preflop" {
-			t.lastFull, t.lastAny, t.lastAct = r.initialFull(), r.initialFull(), r.initialFull()
+			t.lastFull, t.lastAny, t.lastAct, t.lastFullAct = r.initialFull(), r.initialFull(), r.initialFull(), r.initialFull()
 		}
 	}
 	if t.hadTurn == nil {
@@ -262,6 +263,11 @@ func (r *run) updateTrack(d *delivery, cl opClass, accepted bool) {
 		isCall := d.st.Op == "call" || (d.st.Op == "raise" && arg0(d.st) == wPre)
 		if !isCall {
 			t.lastAct = inc
+			// an opening bet (nothing wagered yet) defines the size; later
+			// increases only when they are full
+			if inc >= t.lastFullAct || wPre == 0 {
+				t.lastFullAct = inc
+			}
 		}
 		if inc >= t.lastFull {
 			t.lastFull = inc
